@@ -24,5 +24,8 @@ class TrashDirReader:
     def list_trashinfo(self, path):
         info_dir = os.path.join(path, 'info')
         for entry in self.dir_reader.entries_if_dir_exists(info_dir):
-            if entry.endswith('.trashinfo'):
+            # '.trashinfo', '..trashinfo' and '...trashinfo' would name files/,
+            # files/. and files/.. (the trash directory itself) as their payload
+            if entry.endswith('.trashinfo') and \
+                    entry[:-len('.trashinfo')] not in ('', '.', '..'):
                 yield os.path.join(info_dir, entry)
